@@ -250,6 +250,11 @@ func Check(env *core.Env, rep *core.Report) *core.Result {
 					b = append(b, "\x1b[1;32m"...)
 				case 3:
 					b = append(b, "\x1b[0m"...)
+					if k%2 == 0 {
+						// long sequences too (truecolor foreground and background)
+						b = append(b, "\x1b[38;2;255;128;64m"...)
+						b = append(b, "\x1b[38;2;255;128;64;48;2;10;20;30m"...)
+					}
 				case 4:
 					n := []int{4095, 4096, 4097, 10000}[rng.Intn(4)]
 					b = append(b, bytes.Repeat([]byte{byte('A' + w)}, n)...)
